@@ -27,6 +27,7 @@ struct VerifTTAccess {
     static size_t getIndex(const TranspositionTable& t, U64 key) { return t.getIndex(key); }
     static U64 usedSize(const TranspositionTable& t) { return t.usedSize; }
     static U64 tableSize(const TranspositionTable& t) { return t.tableSize; }
+    static void setTableSizeField(TranspositionTable& t, U64 n) { t.tableSize = n; } // index arithmetic only: the table memory is never touched afterwards
     static U64 usedSizeMask(const TranspositionTable& t) { return t.usedSizeMask; }
     static bool tbResident(const TranspositionTable& t) { return t.tbGen != nullptr; }
     static U64 contemptHash(const TranspositionTable& t) { return t.contemptHash; }
@@ -365,9 +366,16 @@ void runMate(const std::string& sub, const MateCase& m, vh::Stats& st, Transposi
 struct IndexChecker {
     TranspositionTable tt;          // small; only setUsedSize/getIndex are called after a size was set
     vh::Stats& st;
-    long evals = 0, sizesFull = 0, sizesExtreme = 0, nonPow2 = 0;
-    explicit IndexChecker(vh::Stats& s) : tt(1024), st(s) {}
-    ~IndexChecker() { VerifTTAccess::setUsedSize(tt, VerifTTAccess::tableSize(tt)); }
+    long evals = 0, sizesFull = 0, sizesExtreme = 0, nonPow2 = 0, sizesResident = 0;
+    const U64 realSize;
+    explicit IndexChecker(vh::Stats& s) : tt(1024), st(s), realSize(VerifTTAccess::tableSize(tt)) {}
+    ~IndexChecker() { VerifTTAccess::setTableSizeField(tt, realSize); VerifTTAccess::setUsedSize(tt, realSize); }
+    // The state the engine is in when the used size is s: the whole table is used (tableSize = s), or an on-demand
+    // tablebase is resident in the last 5 MiB (tableSize = s + 5 MiB).  Only setUsedSize/getIndex are called in this state.
+    void enter(U64 s, bool resident) {
+        VerifTTAccess::setTableSizeField(tt, resident ? s + 5 * 1024 * 1024 / 16 : s);
+        VerifTTAccess::setUsedSize(tt, s);
+    }
 
     static Value kase(U64 s, U64 key) { Value k = Value::object(); k["kind"] = "index"; k["used_size"] = std::to_string(s); k["key"] = hex(key); return k; }
     bool one(U64 s, U64 key) {
@@ -383,19 +391,20 @@ struct IndexChecker {
         out[0] = 0; out[1] = 3; out[2] = 4; out[3] = mask; out[4] = mask + 1; out[5] = mask ? mask - 1 : 0; out[6] = 0x0000ffffffffffffULL;
     }
     // all 2^16 top-bit patterns x the low-bit patterns
-    bool full(U64 s) {
-        VerifTTAccess::setUsedSize(tt, s);
+    bool full(U64 s, bool resident = false) {
+        enter(s, resident);
         U64 lo[7]; lows(lo);
         for (U64 top = 0; top < 65536; top++)
             for (int j = 0; j < 7; j++)
                 if (!one(s, (top << 48) | (lo[j] & 0x0000ffffffffffffULL))) return false;
         sizesFull++;
+        if (resident) sizesResident++;
         if (s & (s - 1)) nonPow2++;
         return true;
     }
     // extreme top-bit patterns only
-    bool extreme(U64 s, Rng& rng) {
-        VerifTTAccess::setUsedSize(tt, s);
+    bool extreme(U64 s, Rng& rng, bool resident = false) {
+        enter(s, resident);
         U64 lo[7]; lows(lo);
         U64 tops[10] = {0xffff, 0xfffe, 0xff00, 0x8000, 0x7fff, 0x0001, 0x0000, rng.next() & 0xffff, rng.next() & 0xffff, 0xfff0 | (rng.next() & 15)};
         for (U64 top : tops)
@@ -403,6 +412,7 @@ struct IndexChecker {
                 if (!one(s, (top << 48) | (lo[j] & 0x0000ffffffffffffULL))) return false;
         if (!one(s, rng.next()) || !one(s, rng.next() | (0xffffULL << 48))) return false;
         sizesExtreme++;
+        if (resident) sizesResident++;
         if (s & (s - 1)) nonPow2++;
         return true;
     }
@@ -434,9 +444,13 @@ void runIndex(vh::Args& a, vh::Stats& st) {
     Rng rng(vh::mix(a.seed * 31 + part));
     bool ok = true;
     std::vector<U64> sp = specialSizes();
-    for (size_t i = 0; i < sp.size() && ok; i++) if ((int)(i % parts) == part) ok = ic.full(sp[i]);
+    for (size_t i = 0; i < sp.size() && ok; i++) if ((int)(i % parts) == part) ok = ic.full(sp[i]) && ic.full(sp[i], true);
     long nMult = (long)(MAXSIZE / 65536);
-    for (long m = 1 + part; m <= nMult && ok; m += parts) ok = ic.extreme((U64)m * 65536, rng);
+    for (long m = 1 + part; m <= nMult && ok; m += parts) {
+        ok = ic.extreme((U64)m * 65536, rng);
+        // "Hash m MiB" with a resident tablebase (the engine builds one from 7 MiB on)
+        if (ok && m >= 7) ok = ic.extreme((U64)m * 65536 - TBRES, rng, true);
+    }
     long fullMult = a.num("full-multiples", 0), randomSizes = a.num("random-sizes", 2000);
     // a seeded, evenly spread slice of the multiples of 65536, every key pattern
     if (fullMult > 0) {
@@ -448,12 +462,13 @@ void runIndex(vh::Args& a, vh::Stats& st) {
     for (long j = 0; j < randomSizes && ok; j++) {
         int e = 9 + rng.pick(27);
         U64 s = ((1ULL << e) + (rng.next() & ((1ULL << e) - 1))) & ~3ULL;
-        ok = (j % 8 == 0) ? ic.full(s) : ic.extreme(s, rng);
+        ok = (j % 8 == 0) ? ic.full(s, j % 16 == 0) : ic.extreme(s, rng, j % 2 == 1);
     }
     st.evaluations += ic.evals;
     st.count("index: sizes with all 2^16 top-bit patterns x 7 low-bit patterns", ic.sizesFull);
     st.count("index: sizes with extreme key patterns", ic.sizesExtreme);
     st.count("index: sizes that are not a power of two", ic.nonPow2);
+    st.count("index: sizes checked in the state 'tablebase resident' (tableSize = used size + 5 MiB)", ic.sizesResident);
     st.count("index: getIndex evaluations", ic.evals);
     for (int i = 0; i < 64 && i < ic.nonPow2; i++) st.nt(vh::mix(a.seed * 977 + part * 64 + i) | 1);   // distinct non-trivial sizes are counted exactly in the counters; a token number enters the hash set
 }
